@@ -20,3 +20,38 @@ Print Assumptions C14_chunking.
    order (so the concurrent sink equals the sequential one: each block is a function of its data) *)
 Theorem C14_schedule_order : pw_order_stmt.   Proof. exact pw_order. Qed.
 Print Assumptions C14_schedule_order.
+
+(* ---- the fast compressor's table AS TRANSLATED from block.go on this run (GenCompressBody.v) ----
+   reset(), get() and put() of the translated code refine the model's table operations under
+   table_rel; after reset() the relation holds with EVERY stale content, i.e. nothing a previous call
+   (or the pool) left in the 65536 entries is visible until it is overwritten in this call. *)
+From LZ4V Require Import GoT GenCompressBody GenCompressBodyProofs.
+Theorem C14_translated_reset : forall fuel s st,
+  zlen (mem_Compressor_table s) = 65536 ->
+  exists s', lz4block_Compressor_reset fuel s = Fall s'
+    /\ table_rel (mem_Compressor_table s') (mem_Compressor_inUse s') (ft_reset st).
+Proof. exact reset_refines_exec. Qed.
+Print Assumptions C14_translated_reset.
+Theorem C14_translated_get : forall fuel s tb,
+  table_rel (mem_Compressor_table s) (mem_Compressor_inUse s) tb ->
+  0 <= Compressor_get_h s -> 0 <= Compressor_get_si s < 2 ^ 62 ->
+  exists s', lz4block_Compressor_get fuel s = Ret s'
+    /\ Compressor_get_ret0 s' = ft_get tb (Compressor_get_h s) (Compressor_get_si s)
+    /\ mem_Compressor_table s' = mem_Compressor_table s
+    /\ mem_Compressor_inUse s' = mem_Compressor_inUse s.
+Proof. exact get_refines. Qed.
+Print Assumptions C14_translated_get.
+Theorem C14_translated_put : forall fuel s tb,
+  table_rel (mem_Compressor_table s) (mem_Compressor_inUse s) tb -> 0 <= Compressor_put_h s ->
+  exists s', lz4block_Compressor_put fuel s = Fall s'
+    /\ table_rel (mem_Compressor_table s') (mem_Compressor_inUse s')
+                 (ft_put tb (Compressor_put_h s) (Compressor_put_si s)).
+Proof. exact put_refines_exec. Qed.
+Print Assumptions C14_translated_put.
+(* every well-formed pair of arrays is related to an explicit abstraction of itself *)
+Theorem C14_translated_abstraction : forall table inUse,
+  zlen table = 65536 -> zlen inUse = 2048 ->
+  (forall h, 0 <= h < 65536 -> 0 <= znth table h < 65536) ->
+  table_rel table inUse (abs_table table inUse).
+Proof. exact abs_table_rel. Qed.
+Print Assumptions C14_translated_abstraction.
